@@ -456,4 +456,235 @@ Section TrieProofs.
           -- pose proof (substPath_notpre l (cp ++ [false]) p o nw H3 (not_pre_snoc _ _ _ Hpre)) as R.
              unfold b_substPath in R. rewrite R. split; auto.
   Qed.
+
+  (* ================================================================ dump *)
+  Lemma lookup_app : forall (m1 m2 : smap) q,
+    lookup (m1 ++ m2) q = match lookup m1 q with Some v => Some v | None => lookup m2 q end.
+  Proof.
+    induction m1 as [|[k v] m1 IH]; intros m2 q; simpl; auto.
+    destruct (beq k q); auto.
+  Qed.
+
+  Lemma lookup_None : forall (m : smap) q,
+    (forall e, In e m -> fst e <> q) -> lookup m q = None.
+  Proof.
+    induction m as [|[k v] m IH]; intros q H; simpl; auto.
+    destruct (beq k q) eqn:E.
+    - apply beq_eq in E. exfalso. apply (H (k, v)); simpl; auto.
+    - apply IH. intros e He. apply H. simpl. auto.
+  Qed.
+
+  Lemma dump_keys_pre : forall n s e, wf s n -> In e (b_dump P n) -> is_pre s (fst e) = true.
+  Proof.
+    unfold b_dump.
+    induction n as [|cp d ps l IHl h IHh]; intros s e Hwf Hin; [contradiction|].
+    destruct Hwf as (H1 & H2 & H3 & H4). cbn [dump] in Hin.
+    apply in_app_or in Hin. destruct Hin as [Hin|Hin].
+    - destruct d; [contradiction|]. destruct Hin as [<-|[]]. exact H1.
+    - apply in_app_or in Hin. destruct Hin as [Hin|Hin].
+      + eapply is_pre_trans; [exact H1|]. eapply is_pre_snoc_l. eapply IHl; eauto.
+      + eapply is_pre_trans; [exact H1|]. eapply is_pre_snoc_l. eapply IHh; eauto.
+  Qed.
+
+  Lemma lookup_dump_notpre : forall n s q,
+    wf s n -> is_pre s q = false -> lookup (b_dump P n) q = None.
+  Proof.
+    intros n s q Hwf Hq. apply lookup_None. intros e He E.
+    rewrite <- E in Hq. rewrite (dump_keys_pre n s e Hwf He) in Hq. discriminate.
+  Qed.
+
+  Lemma lookup_dump : forall n s q, wf s n -> lookup (b_dump P n) q = nlookup n q.
+  Proof.
+    induction n as [|cp d ps l IHl h IHh]; intros s q Hwf; [reflexivity|].
+    destruct Hwf as (H1 & H2 & H3 & H4).
+    unfold b_dump in *. cbn [dump nlookup].
+    destruct (beq cp q) eqn:E1.
+    - apply beq_eq in E1. subst q. destruct d.
+      + cbn [app]. rewrite lookup_app.
+        rewrite (lookup_dump_notpre l (cp ++ [false])); auto using is_pre_snoc_self.
+        rewrite (lookup_dump_notpre h (cp ++ [true])); auto using is_pre_snoc_self.
+      + simpl. rewrite beq_refl. reflexivity.
+    - assert (Hskip : lookup ((if d then [] else [(cp, ps)]) ++ dump bits P l ++ dump bits P h) q
+                      = lookup (dump bits P l ++ dump bits P h) q).
+      { destruct d; auto. simpl. rewrite E1. reflexivity. }
+      rewrite Hskip, lookup_app.
+      destruct (is_pre cp q) eqn:Hpre.
+      + assert (Hne : cp <> q) by (apply beq_false_iff; auto).
+        pose proof (is_pre_snoc _ _ Hpre Hne) as Hside.
+        destruct (bitAt q (length cp + 1)) eqn:Eb.
+        * rewrite (lookup_dump_notpre l (cp ++ [false])); eauto.
+          apply (is_pre_snoc_other cp true q Hside).
+        * rewrite (IHl (cp ++ [false]) q H3).
+          destruct (nlookup l q); auto.
+          rewrite (lookup_dump_notpre h (cp ++ [true])); eauto.
+          apply (is_pre_snoc_other cp false q Hside).
+      + rewrite (lookup_dump_notpre l (cp ++ [false])); auto using not_pre_snoc.
+        rewrite (lookup_dump_notpre h (cp ++ [true])); auto using not_pre_snoc.
+  Qed.
+
+  Lemma NoDup_app_intro : forall (A : Type) (l1 l2 : list A),
+    NoDup l1 -> NoDup l2 -> (forall x, In x l1 -> In x l2 -> False) -> NoDup (l1 ++ l2).
+  Proof.
+    induction l1 as [|x l1 IH]; intros l2 H1 H2 Hd; simpl; auto.
+    inversion H1; subst. constructor.
+    - intros Hin. apply in_app_or in Hin. destruct Hin; [contradiction|].
+      eapply Hd; simpl; eauto.
+    - apply IH; auto. intros y Hy1 Hy2. eapply Hd; simpl; eauto.
+  Qed.
+
+  Lemma dump_key_in : forall n s k,
+    wf s n -> In k (map fst (b_dump P n)) -> is_pre s k = true.
+  Proof.
+    intros n s k Hwf Hin. apply in_map_iff in Hin. destruct Hin as (e & <- & He).
+    eapply dump_keys_pre; eauto.
+  Qed.
+
+  Lemma dump_NoDup : forall n s, wf s n -> NoDup (map fst (b_dump P n)).
+  Proof.
+    induction n as [|cp d ps l IHl h IHh]; intros s Hwf; [constructor|].
+    destruct Hwf as (H1 & H2 & H3 & H4).
+    unfold b_dump in *. cbn [dump]. rewrite !map_app.
+    apply NoDup_app_intro.
+    - destruct d; simpl; repeat constructor. intros [].
+    - apply NoDup_app_intro; eauto.
+      intros k Hl Hh.
+      pose proof (dump_key_in l _ k H3 Hl) as A. pose proof (dump_key_in h _ k H4 Hh) as B.
+      pose proof (is_pre_snoc_other cp false k A) as C. cbn [negb] in C. congruence.
+    - intros k Hk Hin. destruct d; [contradiction|]. destruct Hk as [<-|[]].
+      apply in_app_or in Hin. destruct Hin as [Hin|Hin].
+      + pose proof (dump_key_in l _ _ H3 Hin) as A. rewrite is_pre_snoc_self in A. discriminate.
+      + pose proof (dump_key_in h _ _ H4 Hin) as A. rewrite is_pre_snoc_self in A. discriminate.
+  Qed.
+
+  (* ================================================================ lpm and getLonger *)
+  Lemma filter_none : forall (A : Type) (f : A -> bool) l,
+    (forall e, In e l -> f e = false) -> filter f l = [].
+  Proof.
+    induction l as [|x l IH]; intros H; simpl; auto.
+    rewrite (H x) by (simpl; auto). apply IH. intros e He. apply H. simpl. auto.
+  Qed.
+
+  Lemma filter_all : forall (A : Type) (f : A -> bool) l,
+    (forall e, In e l -> f e = true) -> filter f l = l.
+  Proof.
+    induction l as [|x l IH]; intros H; simpl; auto.
+    rewrite (H x) by (simpl; auto). f_equal. apply IH. intros e He. apply H. simpl. auto.
+  Qed.
+
+  Lemma covering_pre : forall q e, covering P q e = true -> is_pre (fst e) q = true.
+  Proof.
+    intros q e H. unfold covering in H. apply orb_true_iff in H. destruct H as [H|H].
+    - apply beq_eq in H. rewrite H. apply is_pre_refl.
+    - apply bcontains_iff in H. tauto.
+  Qed.
+
+  Lemma covered_pre : forall q e, covered P q e = true -> is_pre q (fst e) = true.
+  Proof.
+    intros q e H. unfold covered in H. apply orb_true_iff in H. destruct H as [H|H].
+    - apply beq_eq in H. rewrite H. apply is_pre_refl.
+    - apply bcontains_iff in H. tauto.
+  Qed.
+
+  Lemma pre_covering : forall q e, is_pre (fst e) q = true -> covering P q e = true.
+  Proof.
+    intros q e H. unfold covering. destruct (beq (fst e) q) eqn:E; auto.
+    apply bcontains_iff. split; auto. apply beq_false_iff; auto.
+  Qed.
+
+  Lemma pre_covered : forall q e, is_pre q (fst e) = true -> covered P q e = true.
+  Proof.
+    intros q e H. unfold covered. destruct (beq (fst e) q) eqn:E; auto.
+    apply bcontains_iff. split; auto. apply beq_false_iff in E. congruence.
+  Qed.
+
+  (* no key of a child's subtree covers the parent's own prefix *)
+  Lemma child_not_covering : forall n cp b e,
+    wf (cp ++ [b]) n -> In e (b_dump P n) -> is_pre (fst e) cp = false.
+  Proof.
+    intros n cp b e Hwf Hin. destruct (is_pre (fst e) cp) eqn:E; auto.
+    exfalso. eapply is_pre_snoc_back; [eapply dump_keys_pre; eauto | exact E].
+  Qed.
+
+  Lemma lpm_filter : forall n s q,
+    wf s n -> b_lpm P n q = filter (covering P q) (b_dump P n).
+  Proof.
+    induction n as [|cp d ps l IHl h IHh]; intros s q Hwf; [reflexivity|].
+    destruct Hwf as (H1 & H2 & H3 & H4).
+    unfold b_lpm, b_dump in *. cbn [lpm dump]. rewrite !filter_app. unfold broute, route in *.
+    destruct (beq cp q && negb d) eqn:E1.
+    - apply andb_true_iff in E1. destruct E1 as [E1 Ed]. apply beq_eq in E1. subst q.
+      destruct d; [discriminate|].
+      rewrite (filter_none (bits * list P) (covering P cp) (dump bits P l)),
+              (filter_none (bits * list P) (covering P cp) (dump bits P h)).
+      + simpl. unfold covering at 1. simpl. rewrite beq_refl. reflexivity.
+      + intros e He. destruct (covering P cp e) eqn:C; auto. apply covering_pre in C.
+        rewrite (child_not_covering h cp true e H4 He) in C. discriminate.
+      + intros e He. destruct (covering P cp e) eqn:C; auto. apply covering_pre in C.
+        rewrite (child_not_covering l cp false e H3 He) in C. discriminate.
+    - destruct (bcontains cp q) eqn:E2; cbn [negb].
+      + rewrite <- (IHl _ q H3), <- (IHh _ q H4).
+        destruct d; auto. simpl. unfold covering at 1. simpl. rewrite E2, orb_true_r. reflexivity.
+      + (* nothing below this node covers q *)
+        assert (Hhead : filter (covering P q) (if d then [] else [(cp, ps)]) = []).
+        { destruct d; auto. simpl. unfold covering. simpl. rewrite E2.
+          rewrite andb_true_r in E1. rewrite E1. reflexivity. }
+        assert (Hkids : forall b n, wf (cp ++ [b]) n -> filter (covering P q) (dump bits P n) = []).
+        { intros b n Hn. apply filter_none. intros e He.
+          destruct (covering P q e) eqn:C; auto. apply covering_pre in C.
+          pose proof (dump_keys_pre n _ e Hn He) as Hk.
+          assert (Hcq : is_pre cp q = true).
+          { eapply is_pre_trans; [|exact C]. eapply is_pre_snoc_l; eauto. }
+          apply bcontains_false_iff in E2. destruct E2 as [E2|E2]; [congruence|]. subst q.
+          rewrite (child_not_covering n cp b e Hn He) in C. discriminate. }
+        rewrite Hhead, (Hkids false l H3), (Hkids true h H4). reflexivity.
+  Qed.
+
+  Lemma longer_filter : forall n s q,
+    wf s n -> b_dump P (b_getLongerNode P n q) = filter (covered P q) (b_dump P n).
+  Proof.
+    induction n as [|cp d ps l IHl h IHh]; intros s q Hwf; [reflexivity|].
+    pose proof Hwf as Hwf0. destruct Hwf as (H1 & H2 & H3 & H4).
+    unfold b_getLongerNode, b_dump in *. cbn [getLongerNode].
+    change (blen cp) with (length cp).
+    destruct (beq cp q || bcontains q cp) eqn:E1.
+    - (* the whole subtree is inside q *)
+      symmetry. apply filter_all. intros e He. apply pre_covered.
+      assert (Hq : is_pre q cp = true).
+      { apply orb_true_iff in E1. destruct E1 as [E1|E1].
+        - apply beq_eq in E1. subst. apply is_pre_refl.
+        - apply bcontains_iff in E1. tauto. }
+      eapply is_pre_trans; [exact Hq|].
+      apply (dump_keys_pre (Node cp d ps l h) cp e); auto.
+      eapply wf_root; eauto. apply is_pre_refl.
+    - apply orb_false_iff in E1. destruct E1 as [E1 E1'].
+      assert (Hqc : is_pre q cp = false).
+      { apply bcontains_false_iff in E1'. destruct E1' as [|E]; auto.
+        subst. rewrite beq_refl in E1. discriminate. }
+      cbn [dump]. rewrite !filter_app. unfold broute, route in *.
+      assert (Hhead : filter (covered P q) (if d then [] else [(cp, ps)]) = []).
+      { destruct d; auto. simpl. unfold covered. simpl. rewrite E1, E1'. reflexivity. }
+      rewrite Hhead. cbn [app].
+      destruct (bcontains cp q) eqn:E2; cbn [negb].
+      + apply bcontains_iff in E2. destruct E2 as [Hpre Hne].
+        pose proof (is_pre_snoc _ _ Hpre Hne) as Hside.
+        assert (Hother : forall n, wf (cp ++ [negb (bitAt q (length cp + 1))]) n ->
+                  filter (covered P q) (dump bits P n) = []).
+        { intros n Hn. apply filter_none. intros e He.
+          destruct (covered P q e) eqn:C; auto. apply covered_pre in C.
+          pose proof (dump_keys_pre n _ e Hn He) as Hk.
+          pose proof (is_pre_trans _ _ _ Hside C) as Hk'.
+          rewrite (is_pre_snoc_other _ _ _ Hk') in Hk. discriminate. }
+        destruct (bitAt q (length cp + 1)) eqn:Eb; cbn [negb] in *.
+        * rewrite (Hother l H3). cbn [app]. apply (IHh _ q H4).
+        * rewrite (Hother h H4), app_nil_r. apply (IHl _ q H3).
+      + assert (Hcq : is_pre cp q = false).
+        { apply bcontains_false_iff in E2. destruct E2 as [|E]; auto.
+          subst. rewrite beq_refl in E1. discriminate. }
+        assert (Hkids : forall b n, wf (cp ++ [b]) n -> filter (covered P q) (dump bits P n) = []).
+        { intros b n Hn. apply filter_none. intros e He.
+          destruct (covered P q e) eqn:C; auto. apply covered_pre in C.
+          pose proof (dump_keys_pre n _ e Hn He) as Hk. apply is_pre_snoc_l in Hk.
+          destruct (is_pre_comparable _ _ _ C Hk); congruence. }
+        rewrite (Hkids false l H3), (Hkids true h H4). reflexivity.
+  Qed.
 End TrieProofs.
